@@ -79,3 +79,62 @@ package gomatrixserverlib
 //@   ensures no-creator-sender: err == nil ==> !(string(createEvent.SenderID()) in newPowerLevels.Users)
 //@   ensures no-additional-creator: err == nil ==> (forall i int :: 0 <= i && i < nAdditionalCreators(createEvent) ==> !(additionalCreatorAt(createEvent, i) in newPowerLevels.Users))
 //@   loop 1: invariant forall u string :: seen(1)[u] ==> (u != string(createEvent.SenderID()) && (forall i int :: 0 <= i && i < nAdditionalCreators(createEvent) ==> additionalCreatorAt(createEvent, i) != u))
+
+// ---------------------------------------------------------------- C07: event authorisation
+
+//@ func errorf
+//@   opaque
+//@   ensures result != nil
+//@   assigns nothing
+
+//@ func (*allowerContext).userPowerLevel
+//@   property C07
+//@   requires a != nil && (a.powerLevelsEvent == nil ==> a.createEvent != nil)
+//@   ensures level: result == effLevel(*a, userID)
+//@   assigns nothing
+
+//@ func (*membershipAllower).membershipFailed
+//@   property C07
+//@   requires m != nil && m.allowerContext != nil
+//@   ensures result != nil
+//@   assigns nothing
+
+//@ func checkKnocking
+//@   property C07
+//@   ensures iff: (err == nil) <==> knockSpec(joinRule, prevMembership)
+//@   assigns nothing
+
+//@ func disallowKnocking
+//@   property C07
+//@   ensures never: err != nil
+//@   assigns nothing
+
+//@ func allowRestrictedJoins
+//@   property C07
+//@   ensures always: err == nil
+//@   assigns nothing
+
+//@ func disallowRestrictedJoins
+//@   property C07
+//@   ensures never: err != nil
+//@   assigns nothing
+
+//@ func (*membershipAllower).membershipAllowedOther
+//@   property C07
+//@   requires m != nil && m.allowerContext != nil && (m.powerLevelsEvent == nil ==> m.createEvent != nil)
+//@   ensures iff: (err == nil) <==> otherSpec(m.senderMember.Membership, m.newMember.Membership, m.oldMember.Membership, effLevel(*m.allowerContext, m.senderID), effLevel(*m.allowerContext, m.targetID), m.powerLevels.Ban, m.powerLevels.Kick, m.powerLevels.Invite)
+//@   assigns nothing
+
+//@ func SplitID
+//@   requires sigil != 58
+//@   property C17
+//@   ensures iff: (err == nil) <==> (len(id) > 0 && id[0] == sigil && indexByte(id, ':') >= 0)
+//@   ensures parts: err == nil ==> (local == substr(id, 1, indexByte(id, ':')) && domain == substr(id, indexByte(id, ':') + 1, len(id)))
+//@   assigns nothing
+
+//@ func (*membershipAllower).membershipAllowedSelfForRestrictedJoin
+//@   property C07
+//@   frameprop C09
+//@   requires m != nil && m.allowerContext != nil && (m.powerLevelsEvent == nil ==> m.createEvent != nil) && m.roomVersionImpl != nil && m.provider != nil
+//@   ensures iff: (err == nil) <==> (m.roomVersionImpl.CheckRestrictedJoinsAllowed() == nil && (treatAsInvite(old(m.oldMember.Membership), old(m.newMember.AuthorisedVia)) || (viaIDOK(m.roomVersionImpl, m.newMember.AuthorisedVia) && viaJoined(m.provider, m.newMember.AuthorisedVia) && effLevel(*m.allowerContext, m.newMember.AuthorisedVia) >= m.powerLevels.Invite)))
+//@   assigns nothing
